@@ -217,7 +217,18 @@ def run(ctx):
                                 got = "IOError"
                             except Exception as exc:  # noqa
                                 got = "!" + type(exc).__name__
-                            loc = lshard.read_bytes(off, ln) if lshard is not None else whole[off:off + ln]
+                            try:
+                                loc = lshard.read_bytes(off, ln) if lshard is not None else whole[off:off + ln]
+                                locs = "ok " + core.hexs(loc)
+                            except OSError:
+                                loc, locs = None, "IOError"
+                            if loc is None and off + ln <= len(whole):
+                                ctx.oracle_fail("the local shard reader failed on bytes that exist", dict(sdesc, off=off, len=ln))
+                            if loc is None:
+                                loc = whole[off:off + ln]
+                            elif got.startswith("ok") is False and got == "IOError" and off + ln > len(whole) and ln > 0:
+                                ctx.oracle_fail("the local shard reader returned a short read where the HTTP reader raises",
+                                                dict(sdesc, off=off, len=ln))
                             ctx.case(("range", legacy, off >= len(whole), off + ln > len(whole)))
                             ctx.hist("range_kind", "past-end" if off >= len(whole) else "straddles-end" if off + ln > len(whole) else "inside")
                             if got.startswith("ok") and bytes.fromhex(got[3:].replace("-", "")) != loc:
@@ -226,7 +237,7 @@ def run(ctx):
                             if got.startswith("!") or (got == "IOError" and off + ln <= len(whole)):
                                 ctx.oracle_fail("HTTP read_bytes failed on bytes that exist", dict(sdesc, off=off, len=ln, got=got))
                             reqs.append(f"http-range {core.hexs(idxb) if legacy else '-'} {core.hexs(datb)} {off} {ln}")
-                            meta.append((dict(sdesc, off=off, len=ln), got + " local " + core.hexs(loc)))
+                            meta.append((dict(sdesc, off=off, len=ln), got + " local " + locs))
             except Exception as exc:  # noqa
                 ctx.oracle_fail(f"local sharded reader failed on the dataset: {type(exc).__name__}: {exc}", sdesc)
             # faults on the shard files: the result must be an error, never bytes
